@@ -140,6 +140,10 @@ func applyFault(fd *FakeDocker, inv []CSpec, f c14Fault) func() bool {
 		// transport errors come in many shapes; some wrap an EOF sentinel (a connection torn down
 		// mid-body) without being a clean end of the log
 		fd.Containers[f.Container].Plan.FailErr = c14ReadErrs[(f.At+f.Container)%len(c14ReadErrs)]
+		if (f.At+f.Container)%2 == 0 {
+			// a connection that broke says so again when it is closed: the other readers are closed all the same
+			fd.Containers[f.Container].Plan.CloseErr = fd.Containers[f.Container].Plan.FailErr
+		}
 		return func() bool { _, _, fired, _ := fd.Ledger(); return fired > 0 }
 	case "trunc":
 		fc := fd.Containers[f.Container]
